@@ -302,3 +302,34 @@ example : view (doscan "%Zd%n".toList "  ".toList) = some (-1, [], "") ∧
     view (doscan "%*Zd%n".toList " 12x".toList) = some (0, [3], "x") := by decide +kernel
 
 end Mpir.Scanf
+
+/-! ## `%F`: where MPIR's layout deviates from C99 — pinned on the model here, and on the real library by
+    corpus/C18/f_deviations.ops (the same lines run through gmp_snprintf and the model on every check).
+    No layout theorem for doprntf.c is proved in this file; these are `example`s only. -/
+namespace Mpir.Printf
+
+/-- bytes of `gmp_printf (fmt, f)` for one mpf argument given as (_mp_prec, sign, limbs, _mp_exp) -/
+def fText (fmt : String) (prec : Nat) (neg : Bool) (limbs : List Nat) (exp : Int) : Option String :=
+  (doprnt fmt.toList [.mpf prec neg limbs exp]).map (fun r => String.ofList (callsBytes r.calls))
+
+-- D-F1  `%#.3Fg` of 0.5: the "0" before the point is counted as a significant digit (doprntf.c:281-292 adds
+--       intlen+intzeros for GENERAL): "0.50" (C99 / glibc: "0.500"); "%#Fg": "0.50000" (glibc "0.500000")
+example : fText "%#.3Fg" 2 false [0x8000000000000000] 0 = some "0.50" := by decide +kernel
+example : fText "%#Fg" 2 false [0x8000000000000000] 0 = some "0.50000" := by decide +kernel
+--       ... values ≥ 1 and values with zeros after the point are as in C: 1.5 -> "1.50", 0.0625 -> "0.0625"
+example : fText "%#.3Fg" 2 false [0x8000000000000000, 1] 1 = some "1.50" := by decide +kernel
+example : fText "%#.3Fg" 2 false [0x1000000000000000] 0 = some "0.0625" := by decide +kernel
+-- D-F2  double rounding: for `%.2Ff` doprntf.c:93-103 asks mpf_get_str for prec+2 = 4 digits; 0.1249999999 (here
+--       0x1fffffff920c8098 / 2^64) comes back already rounded to "125", and doprntf.c:140-215 rounds that again:
+--       "0.13" (C99 / glibc on the exact value: "0.12"); with one more digit of precision the text is "0.125"
+example : fText "%.2Ff" 2 false [0x1fffffff920c8098] 0 = some "0.13" ∧ fText "%.3Ff" 2 false [0x1fffffff920c8098] 0 = some "0.125" := by
+  decide +kernel
+-- D-F3  exact ties are rounded away from zero (glibc: to even in the default rounding mode): 2.5 -> "3", 12.5 -> "13"
+example : fText "%.0Ff" 2 false [0x8000000000000000, 2] 1 = some "3" ∧ fText "%.0Ff" 2 false [0x8000000000000000, 12] 1 = some "13" := by
+  decide +kernel
+-- agreement cases around them: sign, zero padding after the sign, `#` keeps the point
+example : fText "%+010.2Ff" 2 true [0x4000000000000000, 1] 1 = some "-000001.25" ∧
+    fText "%#.0Ff" 2 false [0x8000000000000000, 2] 1 = some "3." ∧ fText "%.0Fe" 2 false [0x8000000000000000, 7] 1 = some "8e+00" := by
+  decide +kernel
+
+end Mpir.Printf
